@@ -33,7 +33,7 @@ import itertools
 import numpy as np
 
 PROPERTY = 'C11'
-TIMEOUT = 25.0
+TIMEOUT = 12.0
 CHUNK = 8
 FLOOR = 0.45
 RULE = ('every spec of the LP / MILP / SOCP / EXP grammars (module docstring) x every supporting interface x '
@@ -155,7 +155,8 @@ def _lp_specs(thorough, pal):
                     for fe in (('ro', 'lp', 'dro') if thorough else ('ro',) if cnt % 4 else ('ro', 'lp')):
                         spec = {'fe': fe, 'n': n, 'vt': 'C', 'items': items, 'obj': [d, c],
                                 'cls': 'LP|%s|rows:%s|%s|%s' % (fe, '+'.join('%d%s' % b for b in blocks), var,
-                                                                'bnd:%s/%s' % (','.join(kinds), style))}
+                                                                'bnd:%s/%s' % (','.join(kinds), style)),
+                                'sig': 'LP|%s|%s|bounds-as:%s' % (fe, var, style)}
                         yield spec, (oi == 0 and fe == 'ro' and var in ('base', 'empty-neg-mat', 'empty-eq0'))
                 cnt += 1
     # part B: every bound pattern x style, two fixed row structures
@@ -176,7 +177,8 @@ def _lp_specs(thorough, pal):
                                 continue
                             spec = {'fe': 'ro', 'n': n, 'vt': 'C', 'items': items, 'obj': [d, c],
                                     'cls': 'LP|ro|rows:%s|base|bnd:%s/%s' % ('+'.join('%d%s' % b for b in blocks),
-                                                                            ','.join(kinds), style)}
+                                                                            ','.join(kinds), style),
+                                    'sig': 'LP|ro|base|bounds-as:%s' % style}
                             yield spec, (oi == 0 and d == 'min')
 
 
@@ -219,13 +221,17 @@ def _milp_specs(thorough, pal):
                     # coupling row with a fractional right-hand side: integrality matters
                     P = PAL[pal]
                     a = [[abs(P[(2 * j + len(vt)) % len(P)]) for j in range(n)]]
-                    rhs = {'<=': [1.75], '>=': [0.75], '==': [1.5]}[sense]
+                    # '==': reachable by x = e_0 when the bounds allow it (ECOS_BB does not terminate on
+                    # integer-infeasible equalities whose relaxation is feasible: such cases only burn the watchdog)
+                    rhs = {'<=': [1.75], '>=': [0.75], '==': [a[0][0]]}[sense]
                     items = bitems + [['row', a, sense, rhs, 'mat']]
                     for oi, (d, c) in enumerate((('max', [1.0, 0.5, 0.75][:n]), ('min', [1.0, -0.5, 0.25][:n]))):
                         for fe in (('ro', 'lp') if thorough and style == 'B' and sense == '<=' else ('ro',)):
                             spec = {'fe': fe, 'n': n, 'vt': vt, 'items': items, 'obj': [d, c],
                                     'cls': 'MILP|%s|vt=%s/n%d|B:%s|I:%s|%s|row%s' % (fe, vt, n, bk if hasB else '-',
-                                                                                  ik if hasI else '-', style, sense)}
+                                                                                  ik if hasI else '-', style, sense),
+                                    'sig': 'MILP|%s|vt=%s|B:%s|I:%s|bounds-as:%s' % (fe, vt, bk if hasB else '-',
+                                                                                   ik if hasI else '-', style)}
                             yield spec, (style == 'B' and sense == '<=' and oi == 0 and fe == 'ro')
 
 
@@ -291,9 +297,11 @@ def _socp_specs(thorough, pal):
                     obj = ['min', 'cvx', cname, Es, [0.0, 0.0], [0.5, 0.0, 0.0]]
                 spec = {'fe': 'ro', 'n': 3, 'vt': vt, 'items': items, 'obj': obj,
                         'cls': 'SOCP|ro|%s|%s|vt=%s' % (cname, var, vt)}
+                spec['sig'] = spec['cls']
                 yield spec, True
                 if thorough:
-                    yield dict(spec, fe='dro', cls=spec['cls'].replace('|ro|', '|dro|')), False
+                    c2 = spec['cls'].replace('|ro|', '|dro|')
+                    yield dict(spec, fe='dro', cls=c2, sig=c2), False
 
 
 # ------------------------------------------------------------------------------------------------
@@ -374,7 +382,7 @@ def _exp_specs(thorough, pal):
             fes = ('ro', 'dro') if thorough else ('ro',)
             for fe in fes:
                 spec = {'fe': fe, 'n': n, 'vt': vt, 'items': items, 'obj': obj,
-                        'cls': 'EXP|%s|%s|vt=%s' % (fe, name, vt)}
+                        'cls': 'EXP|%s|%s|vt=%s' % (fe, name, vt), 'sig': 'EXP|%s|%s|vt=%s' % (fe, name, vt)}
                 if vt == 'C':
                     spec['expect'] = ['nonopt'] if val is None else ['opt', val]
                 elif val is None:
@@ -549,7 +557,7 @@ def run_case(case):
 def _run_solo(case):
     prog, bld = _rs['prog'], _rs['bld']
     spec, iface, log = case['spec'], case['iface'], case['log']
-    base = '%s|%s' % (spec['cls'], iface)
+    base = '%s|%s' % (spec['sig'], iface)
     try:
         m, x, handles, nops = bld.build(spec)
         f = m.do_math()
@@ -570,9 +578,14 @@ def _run_solo(case):
     bad = _protocol(r)
     if bad:
         return {'status': 'violation', 'sig': base + '|' + bad[0], 'ops': nops, 'detail': bad[1]}
-    if r['cls'] not in ('opt', 'nonopt'):
-        return {'status': 'vacuous', 'outcome': '%s %s: unclear status %r' % (fam, iface, r['status']), 'ops': nops}
     rcls, rval, who = _reference(spec, S0, kind, iface)
+    if r['cls'] not in ('opt', 'nonopt'):
+        # limits / numerics / "infeasible or unbounded" codes: never compared as optimal; when no solution is
+        # reported (protocol checked above) and the reference has no optimum either, the classes agree
+        if np.isnan(r['objval']) and rcls == 'nonopt':
+            return {'status': 'pass', 'outcome': '%s %s: no optimum (unclear code %r), agrees with %s, no solution reported'
+                    % (fam, iface, r['status'], who), 'nontrivial': True, 'ops': nops, 'validated': 1}
+        return {'status': 'vacuous', 'outcome': '%s %s: unclear status %r' % (fam, iface, r['status']), 'ops': nops}
     sign = 1.0 if spec['obj'][0] == 'min' else -1.0
     # the returned vector against the compiled program (needs no reference)
     if r['cls'] == 'opt':
@@ -629,7 +642,7 @@ def _run_pair(case):
     prog, bld = _rs['prog'], _rs['bld']
     spec = case['spec']
     i1, i2 = case['order']
-    base = '%s|%s>%s' % (spec['cls'], i1, i2)
+    base = '%s|%s>%s' % (spec['sig'], i1, i2)
     try:
         m, x, handles, nops = bld.build(spec)
         f = m.do_math()
